@@ -1934,3 +1934,97 @@ def kw_to_pos(mod, repo):
         if moved:
             n += 1
     return n
+
+
+# ---------------------------------------------------------------------------------------------- stage 0: private imports
+def _free_names(fn):
+    """Names the function reads that are neither parameters nor bound in its body; None when the body binds names in a way
+    that is not followed (imports, handlers' ``as`` names are taken as locals)."""
+    a = fn.args
+    bound = set(x.arg for x in a.posonlyargs + a.args + a.kwonlyargs)
+    if a.vararg is not None:
+        bound.add(a.vararg.arg)
+    if a.kwarg is not None:
+        bound.add(a.kwarg.arg)
+    for n in ast.walk(fn):
+        if isinstance(n, (ast.Import, ast.ImportFrom)):
+            return None
+        if isinstance(n, ast.Name) and isinstance(n.ctx, (ast.Store, ast.Del)):
+            bound.add(n.id)
+        elif isinstance(n, ast.ExceptHandler) and n.name:
+            bound.add(n.name)
+    return set(n.id for n in ast.walk(fn) if isinstance(n, ast.Name) and isinstance(n.ctx, ast.Load) and n.id not in bound)
+
+
+def _binds_anywhere(tree, name):
+    for x in ast.walk(tree):
+        if isinstance(x, (ast.FunctionDef, ast.AsyncFunctionDef, ast.ClassDef)) and x.name == name:
+            return True
+        if isinstance(x, ast.Name) and x.id == name and isinstance(x.ctx, (ast.Store, ast.Del)):
+            return True
+        if isinstance(x, ast.arg) and x.arg == name:
+            return True
+        if isinstance(x, ast.alias) and (x.asname or x.name).split('.')[0] == name:
+            return True
+        if isinstance(x, ast.alias) and x.name == '*':
+            return True
+        if isinstance(x, (ast.Global, ast.Nonlocal)) and name in x.names:
+            return True
+    return False
+
+
+def materialize_private_imports(tree, path):
+    """Stage 0 (before stage 1).  ``from ._private import helper`` where ``_private`` is a private sibling module and ``helper``
+    a *closed* plain function there (it reads nothing but its parameters, its own locals and builtins that neither module
+    re-binds; constant defaults; no decorators, annotations, generators, nested definitions): a call ``helper(..)`` in this
+    module behaves exactly like a call of a copy of that definition placed in this module.  The copy is added under a
+    private name no one else mentions and the direct calls are pointed at it, so that stage 1 can treat it like any private
+    helper of this module; the import (and with it every other use of the name) stays as it is.  Returns the number of
+    definitions copied."""
+    import builtins
+    import os
+    n_done = 0
+    pkgdir = os.path.dirname(path)
+    for st in list(tree.body):
+        if not isinstance(st, ast.ImportFrom) or st.level != 1 or not st.module or '.' in st.module or \
+                not st.module.startswith('_') or st.module.startswith('__'):
+            continue
+        src = os.path.join(pkgdir, st.module + '.py')
+        if not os.path.isfile(src):
+            continue
+        try:
+            with open(src, 'rb') as f:
+                other = ast.parse(f.read().decode('utf-8'), filename=src)
+        except (SyntaxError, UnicodeDecodeError, OSError):
+            continue
+        for a in st.names:
+            local = a.asname or a.name
+            defs = [d for d in other.body if isinstance(d, ast.FunctionDef) and d.name == a.name]
+            if len(defs) != 1 or not _bound_once(other, a.name) or not _bound_once(tree, local):
+                continue
+            fn = defs[0]
+            if fn.decorator_list or fn.returns is not None or _eligible_def(fn, any_name=True) != 'func':
+                continue
+            args = fn.args
+            if args.kwarg is not None or any(x.annotation is not None for x in args.posonlyargs + args.args + args.kwonlyargs):
+                continue
+            if not all(d is None or isinstance(d, ast.Constant) for d in list(args.defaults) + list(args.kw_defaults)):
+                continue
+            if any(isinstance(x, ast.AnnAssign) for x in ast.walk(fn)):
+                continue
+            free = _free_names(fn)
+            if free is None or not all(hasattr(builtins, x) and not _binds_anywhere(other, x) and not _binds_anywhere(tree, x) for x in free):
+                continue
+            calls = [c for c in ast.walk(tree) if isinstance(c, ast.Call) and isinstance(c.func, ast.Name) and c.func.id == local]
+            if not calls:
+                continue
+            priv = '_vt_imp_' + local.lstrip('_')
+            if _binds_anywhere(tree, priv) or any(isinstance(x, ast.Name) and x.id == priv for x in ast.walk(tree)):
+                continue
+            new = copy.deepcopy(fn)
+            new.name = priv
+            tree.body.insert(tree.body.index(st) + 1, new)
+            for c in calls:
+                c.func = ast.copy_location(ast.Name(id=priv, ctx=ast.Load()), c.func)
+            n_done += 1
+    return n_done
